@@ -34,18 +34,18 @@ Qed.
 (* the in-epoch relation *)
 Lemma neighbor_sym v a b : neighbor v a b = neighbor v b a.
 Proof.
-  unfold neighbor. rewrite (N.eqb_sym a b), (N.eqb_sym (row v a)), (N.eqb_sym (col v a)).
+  unfold neighbor, neighbor_w. rewrite (N.eqb_sym a b), (N.eqb_sym (a / width v)), (N.eqb_sym (a mod width v)).
   destruct (a <? v), (b <? v); reflexivity.
 Qed.
 
 Lemma neighbor_irrefl v a : neighbor v a a = false.
-Proof. unfold neighbor. rewrite N.eqb_refl. cbn. rewrite !andb_false_r. reflexivity. Qed.
+Proof. unfold neighbor, neighbor_w. rewrite N.eqb_refl. cbn. rewrite !andb_false_r. reflexivity. Qed.
 
 Lemma neighbor_iff v a b :
   neighbor v a b = true <->
   a < v /\ b < v /\ a <> b /\ (a / N.sqrt v = b / N.sqrt v \/ a mod N.sqrt v = b mod N.sqrt v).
 Proof.
-  unfold neighbor, row, col.
+  unfold neighbor, neighbor_w.
   destruct (N.eq_dec v 0) as [->|Hv].
   - assert (Ha : a <? 0 = false) by (apply N.ltb_ge; lia). rewrite Ha. cbn. split; [discriminate | lia].
   - rewrite width_sqrt by lia.
@@ -66,7 +66,7 @@ Qed.
 
 Lemma neighbor_indices_spec v a b : In b (neighbor_indices v a) <-> neighbor v a b = true.
 Proof.
-  unfold neighbor_indices. rewrite filter_In, in_idx_seq. split; [tauto|].
+  unfold neighbor_indices. fold (neighbor v a). rewrite filter_In, in_idx_seq. split; [tauto|].
   intros H. split; [|exact H]. apply neighbor_in_range in H. tauto.
 Qed.
 
@@ -87,7 +87,7 @@ Proof.
 Qed.
 
 Lemma neighbor_indices_sorted v a : StronglySorted N.lt (neighbor_indices v a).
-Proof. apply filter_sorted, idx_seq_from_sorted. Qed.
+Proof. unfold neighbor_indices. apply filter_sorted, idx_seq_from_sorted. Qed.
 
 (* ------------------------------------------------------------------------------------------ *)
 (* three epochs *)
@@ -219,3 +219,23 @@ Section FirstOnly.
     - intros Hs. rewrite Hs. apply orb_true_r.
   Qed.
 End FirstOnly.
+
+(* ------------------------------------------------------------------------------------------ *)
+(* the width just below, at and just above a perfect square (the points where a rounding error of a
+   floating-point square root would show) *)
+Lemma width_around_squares k : 1 <= k ->
+  width (k * k) = k /\ width (k * k + 1) = k /\ (2 <= k -> width (k * k - 1) = k - 1).
+Proof.
+  intros Hk. repeat split.
+  - rewrite width_sqrt by nia. apply N.sqrt_unique. nia.
+  - rewrite width_sqrt by nia. apply N.sqrt_unique. nia.
+  - intros H2. rewrite width_sqrt by nia. apply N.sqrt_unique.
+    assert (E : k = N.succ (k - 1)) by lia. set (j := k - 1) in *. clearbody j. subst k. nia.
+Qed.
+
+(* the width is monotone, so it is constant between consecutive squares *)
+Lemma width_between_squares k n : 1 <= k -> k * k <= n < (k + 1) * (k + 1) -> width n = k.
+Proof.
+  intros Hk Hn. rewrite width_sqrt by nia. apply N.sqrt_unique.
+  replace (N.succ k) with (k + 1) by lia. exact Hn.
+Qed.
